@@ -33,7 +33,7 @@ def case_strategy():
             ),
             # history: the very objects were rendered earlier as children of an inline element (a nesting for which no
             # layout is promised); rendering them afterwards on their own is inside the statement again
-            "prior_inline_parent": st.sampled_from([False, False, True]),
+            "prior_inline_parent": st.sampled_from([False, False, True, "failed"]),
             "indent": st.one_of(st.integers(0, 8), st.integers(0, 8), st.integers(9, 30)),
             "eol": st.sampled_from(EOLS),
             "share": st.one_of(st.just(0), st.integers(1, 10**6)),
@@ -74,7 +74,11 @@ def body_model(case, note):
         roots = gen.share_some(roots, case["share"])  # some children occur again as the very same object
     memo: dict = {}
     objs = [build(r, memo) for r in roots]
-    if case.get("prior_inline_parent"):
+    if case.get("prior_inline_parent") == "failed":
+        from hv.history import failed_operations
+
+        failed_operations(indent, eol, key=case["roots"])
+    elif case.get("prior_inline_parent"):
         for o in objs:
             h.Tag("span", "lead", o, _add_ws=False).get_html_string(indent, eol)
             h.Tag("a", h.Tag("b", o, _add_ws=False), "tail", _add_ws=False).get_html_string()
@@ -98,7 +102,8 @@ def body_model(case, note):
     kinds = {r["k"] for r in roots}
     blank = any(_has_blank(r) for r in roots)
     note(nt, "blank-leaf" if blank else "", "same-object-twice" if shared and memo else "", "list-root-mixed" if len(roots) >= 2 and "tag" in kinds and len(kinds) > 1 else "", "eol:" + repr(eol), "indent>0" if indent else "",
-         "rendered-earlier-below-an-inline-element" if case.get("prior_inline_parent") and nt else "", "more-than-500-children" if any(r["k"] == "tag" and len(r["kids"]) > 500 for r in roots) else "")
+         "rendered-earlier-below-an-inline-element" if case.get("prior_inline_parent") is True and nt else "", "earlier-operations-raised" if case.get("prior_inline_parent") == "failed" and nt else "",
+         "str-subclass-text" if '"sub": true' in __import__("json").dumps(roots) else "", "more-than-500-children" if any(r["k"] == "tag" and len(r["kids"]) > 500 for r in roots) else "")
 
 
 def body_shift(case, note):
@@ -163,6 +168,6 @@ RULE = (
 
 CLAUSES = [
     Clause("small", body_small, source="enum", enum=enum_small, shards_quick=8, shards_thorough=16, rule="every case"),
-    Clause("model", body_model, strategy=case_strategy, quick=800, thorough=12000, shards_quick=4, required=("list-root-mixed", "indent>0", "blank-leaf", "same-object-twice", "rendered-earlier-below-an-inline-element", "more-than-500-children"), rule="block with block and non-block children"),
+    Clause("model", body_model, strategy=case_strategy, quick=800, thorough=12000, shards_quick=4, required=("list-root-mixed", "indent>0", "blank-leaf", "same-object-twice", "rendered-earlier-below-an-inline-element", "more-than-500-children", "earlier-operations-raised", "str-subclass-text"), rule="block with block and non-block children"),
     Clause("shift", body_shift, strategy=case_strategy, quick=400, thorough=6000, shards_quick=2, rule=">=3 lines, indent>0"),
 ]
